@@ -21,6 +21,41 @@ pub struct Baseline {
     pub pairs: bool,
 }
 
+impl Baseline {
+    /// Reduced pairs (both fields over the 3-4 value `reduced_menu`) are explored on every baseline that does not get
+    /// full pairs: in the quick tier on the baselines of at most 1500 bytes, in the thorough tier on all.
+    pub fn rpairs(&self, tier: Tier) -> bool {
+        !self.pairs && !self.name.starts_with("shape:") && (tier == Tier::Thorough || self.bytes.len() <= 1500)
+    }
+}
+
+/// The extremes of a field: zero, all ones, and the neighbour of the current value.
+pub fn reduced_menu(len: u32, cur: &[u8]) -> Vec<Vec<u8>> {
+    let l = len as usize;
+    let mut out: Vec<Vec<u8>> = vec![vec![0; l], vec![0xff; l]];
+    match len {
+        1 | 3 => {
+            let mut x = cur.to_vec();
+            x[l - 1] ^= 1;
+            out.push(x);
+        }
+        2 => out.push(u16::from_be_bytes([cur[0], cur[1]]).wrapping_add(1).to_be_bytes().to_vec()),
+        4 => out.push(u32::from_be_bytes([cur[0], cur[1], cur[2], cur[3]]).wrapping_add(1).to_be_bytes().to_vec()),
+        8 => {
+            // as a box header: the size word alone at 0 / all ones / +1
+            for v in [0u32, u32::MAX, u32::from_be_bytes([cur[0], cur[1], cur[2], cur[3]]).wrapping_add(1)] {
+                let mut x = cur.to_vec();
+                x[..4].copy_from_slice(&v.to_be_bytes());
+                out.push(x);
+            }
+        }
+        _ => {}
+    }
+    let mut seen = BTreeSet::new();
+    out.retain(|v| v.as_slice() != cur && seen.insert(v.clone()));
+    out
+}
+
 pub fn canned(name: &str) -> Vec<u8> {
     std::fs::read(format!("/repo/tests/samples/{}", name)).unwrap_or_else(|e| machinery_failure(&format!("cannot read canned file {}: {}", name, e)))
 }
@@ -370,6 +405,7 @@ pub struct E3Job {
     /// (baseline index, L1 patch or None for the unpatched baseline)
     pub units: Vec<(usize, Option<Patch>)>,
     pub max_bulk: u32,
+    pub tier: Tier,
 }
 
 impl E3Job {
@@ -404,7 +440,7 @@ impl E3Job {
                 }
             }
         }
-        E3Job { prop: prop.into(), baselines, units, max_bulk }
+        E3Job { prop: prop.into(), baselines, units, max_bulk, tier }
     }
 
     fn case_json(&self, b: &Baseline, patches: &[&Patch], bytes: &[u8]) -> Value {
@@ -491,7 +527,15 @@ impl Job for E3Job {
         let init_r = b.init.as_ref().map(|i| open(i).unwrap());
         let mut buf = b.bytes.clone();
         let n = buf.len() as u64;
-        let pairs = b.pairs && p1.as_ref().map(|p| p.more.is_empty()).unwrap_or(false);
+        let single = p1.as_ref().map(|p| p.more.is_empty()).unwrap_or(false);
+        // second level: full menus on the baselines marked for it; otherwise reduced x reduced
+        let reduced_first = single && b.rpairs(self.tier) && {
+            let p = p1.as_ref().unwrap();
+            let cur = &b.bytes[p.pos as usize..p.pos as usize + p.bytes.len()];
+            p.bytes.len() <= 8 && reduced_menu(p.bytes.len() as u32, cur).contains(&p.bytes)
+        };
+        let full_pairs = b.pairs && single;
+        let pairs = full_pairs || reduced_first;
         let mut plist: Vec<&Patch> = vec![];
         if let Some(p) = p1 {
             apply(&mut buf, p);
@@ -541,7 +585,10 @@ impl Job for E3Job {
                 continue; // unordered pair: the lower field is always the first deviation
             }
             let cur = buf[f.pos as usize..(f.pos + f.len as u64) as usize].to_vec();
-            for m in menu(f.len, &cur, n, f.pos) {
+            if !full_pairs && f.len > 8 {
+                continue;
+            }
+            for m in if full_pairs { menu(f.len, &cur, n, f.pos) } else { reduced_menu(f.len, &cur) } {
                 if sub >= start_sub {
                     let p2 = Patch::one(f.pos, m);
                     let old = apply(&mut buf, &p2);
@@ -549,7 +596,7 @@ impl Job for E3Job {
                     let r2 = run_case(&buf, init_r.as_ref(), false, false, false);
                     ctx.end_case();
                     self.judge(b, &[p1, &p2], &buf, &r2, ctx);
-                    ctx.count("pair_cases", 1);
+                    ctx.count(if full_pairs { "pair_cases" } else { "reduced_pair_cases" }, 1);
                     buf[f.pos as usize..f.pos as usize + old.len()].copy_from_slice(&old);
                 }
                 sub += 1;
@@ -614,7 +661,7 @@ pub fn run_check(prop: &str, tier: Tier, seed: u64, profiles: &[&str]) -> i32 {
         }
         evaluations += res.counters.get("evaluations").copied().unwrap_or(0);
         transitions += res.counters.get("transitions").copied().unwrap_or(0);
-        nontrivial += res.counters.get("nontrivial:single_deviation_still_opens").copied().unwrap_or(0) + res.counters.get("pair_cases").copied().unwrap_or(0) + res.counters.get("nontrivial:shape_opens").copied().unwrap_or(0);
+        nontrivial += res.counters.get("nontrivial:single_deviation_still_opens").copied().unwrap_or(0) + res.counters.get("pair_cases").copied().unwrap_or(0) + res.counters.get("reduced_pair_cases").copied().unwrap_or(0) + res.counters.get("nontrivial:shape_opens").copied().unwrap_or(0);
         // vacuity guard: together the baselines must make the parser produce every box kind the library can render
         const KINDS: [&str; 47] = ["ftyp", "moov", "mvhd", "meta", "ilst", "data", "mvex", "mehd", "trex", "udta", "trak", "tkhd", "edts", "elst", "mdia", "mdhd", "hdlr", "minf", "vmhd", "smhd", "dinf", "stbl", "stsd", "avc1", "avcC", "hev1", "hvcC", "vp09", "vpcC", "mp4a", "esds", "tx3g", "stts", "ctts", "stss", "stsc", "stsz", "stco", "co64", "moof", "mfhd", "traf", "tfhd", "tfdt", "trun", "emsg", "data"];
         if !res.capped {
@@ -637,13 +684,13 @@ pub fn run_check(prop: &str, tier: Tier, seed: u64, profiles: &[&str]) -> i32 {
     ev.set("rule", json!("one case = one concrete input file (baseline with <= 2 field substitutions) opened and fully probed by the real reader; inputs are distinct by construction (distinct patch sets, identical-to-baseline values removed from the menus); non-trivial = single-deviation inputs the reader still opens (the deviation reached the accessors) plus all two-deviation inputs"));
     ev.set("units", json!(nunits));
     ev.set("shape_family_members", json!(job.baselines.iter().filter(|b| b.name.starts_with("shape:")).count()));
-    ev.set("baselines", json!(job.baselines.iter().filter(|b| !b.name.starts_with("shape:")).map(|b| json!({"name": b.name, "len": b.bytes.len(), "pairs": b.pairs, "fragment_mode": b.init.is_some()})).collect::<Vec<_>>()));
+    ev.set("baselines", json!(job.baselines.iter().filter(|b| !b.name.starts_with("shape:")).map(|b| json!({"name": b.name, "len": b.bytes.len(), "pairs": b.pairs, "reduced_pairs": b.rpairs(tier), "fragment_mode": b.init.is_some()})).collect::<Vec<_>>()));
     ev.set("profiles", json!(profiles));
     ev.set("counters", Value::Object(counters_all));
     ev.set("worker_deaths", json!(deaths_total));
     ev.set("caps_hit", json!(caps));
     ev.set("exhaustive", json!(caps.is_empty()));
-    ev.set("bound", json!("deviations 0 and 1 on every baseline (every field the parser reads during open x its boundary-value menu); deviations = 2 on the baselines marked pairs=true; structured multi-field deviations on every baseline: overrun chains (sizes of all boxes on every suffix of every ancestor path raised together, with and without a huge entry count) and extreme pairs (every 64-bit number x every 32-bit field, both at the top of their range); deviation 0 on every member of the input-shape families (metadata item x data type x payload length x meta form; fragment option tuples x run-length vectors (0..2)^3 in both delivery modes; chunk compositions x size/offset/sync shapes); bounds checked: ops <= 64n+4096 and bytes <= 64n+2^20 (+sample) per call, thread CPU <= 0.5 s per phase, allocation <= 128n+8MiB"));
+    ev.set("bound", json!("deviations 0 and 1 on every baseline (every field the parser reads during open x its boundary-value menu); deviations = 2 on the baselines marked pairs=true; deviations = 2 with both fields over their reduced menu (zero, all ones, neighbour of the current value) on the baselines marked reduced_pairs=true (quick: baselines <= 1500 bytes; thorough: all others); structured multi-field deviations on every baseline: overrun chains (sizes of all boxes on every suffix of every ancestor path raised together, with and without a huge entry count) and extreme pairs (every 64-bit number x every 32-bit field, both at the top of their range); deviation 0 on every member of the input-shape families (metadata item x data type x payload length x meta form; fragment option tuples x run-length vectors (0..2)^3 in both delivery modes; chunk compositions x size/offset/sync shapes); bounds checked: ops <= 64n+4096 and bytes <= 64n+2^20 (+sample) per call, thread CPU <= 0.5 s per phase, allocation <= 128n+8MiB"));
     if samples.is_empty() {
         samples.push(json!("(none)"));
     }
